@@ -32,7 +32,8 @@ REQUIRED = ['recursiveloader:ManifestLoader.verify_and_load', 'chain_invariant_c
             'api:assert_directory_verifies-root', 'api:find_dist_entry',
             'baseline_accepts', 'stealth_cases_judged', 'weak_cases_judged',
             'twin_cases_judged', 'api:assert_directory_verifies-dir-k',
-            'double_cases_judged', 'rmdir_cases_judged', 'sibling_updates_failed']
+            'double_cases_judged', 'rmdir_cases_judged', 'sibling_updates_failed',
+            'lastmtime_cases']
 ASSUMPTIONS = ['update mode deliberately loads without verification; only loaders '
                'that were not asked to update are covered',
                'the attacker cannot produce hash collisions']
@@ -44,7 +45,11 @@ APIS = ['assert_directory_verifies-root', 'assert_directory_verifies-dir',
         # keep-going: a handler that returns must not let a broken link through,
         # neither for the scan itself nor for later calls on the same loader
         'assert_directory_verifies-dir-k', 'cli-verify-dir-k', 'k-then-verify_path',
-        'k-then-find_dist_entry']
+        'k-then-find_dist_entry',
+        # a last-verification time lets unchanged *files* be skipped, never a link
+        # of the chain
+        'assert_directory_verifies-dir-lastmtime',
+        'assert_directory_verifies-root-lastmtime']
 
 
 def units(tier, seed):
@@ -378,6 +383,11 @@ def run_case(ctx, root, case, layout, dirs, chain, files):
                 r2 = m.find_dist_entry(marker, tdir)
                 result = ('dist', None if r1 is None else adapt.norm_gemato(r1),
                           None if r2 is None else adapt.norm_gemato(r2))
+        elif api.endswith('-lastmtime'):
+            ctx.count('lastmtime_cases')
+            result = m.assert_directory_verifies(
+                '' if '-root-' in api else tdir,
+                last_mtime=[4e9, 2e9, os.stat(top).st_mtime + 1][case['seed'] % 3])
         elif api == 'assert_directory_verifies-root':
             result = m.assert_directory_verifies('')
         elif api == 'assert_directory_verifies-dir':
@@ -478,6 +488,11 @@ def run_twin(ctx, root, case, layout, dirs, chain, files):
             e = m.find_dist_entry(marker, vdir)
             result = None if e is None else adapt.norm_gemato(e)
             bad = e is not None
+        elif api.endswith('-lastmtime'):
+            ctx.count('lastmtime_cases')
+            result = m.assert_directory_verifies(
+                '' if '-root-' in api else tdir,
+                last_mtime=[4e9, 2e9, os.stat(top).st_mtime + 1][case['seed'] % 3])
         elif api == 'assert_directory_verifies-root':
             result = m.assert_directory_verifies('')
             bad = bool(result)
